@@ -541,6 +541,23 @@ func ruleBytesAccounted(c *Ctx) {
 			if f.Signature.Recv() == nil || !namedIs(f.Signature.Recv().Type(), "ast", "CodeWriter") || textWriters[f] || f == semiW {
 				continue
 			}
+			// a private piece of the text writers' prologue (called by nothing else) is judged with them
+			if obj := f.Object(); obj != nil && !obj.Exported() {
+				onlyTW, any := true, false
+				for _, g := range c.libFunctions() {
+					allInstrs(g, func(_ *ssa.BasicBlock, _ int, in ssa.Instruction) {
+						if ci, ok := in.(ssa.CallInstruction); ok && ci.Common().StaticCallee() == f {
+							any = true
+							if !textWriters[g] {
+								onlyTW = false
+							}
+						}
+					})
+				}
+				if _, closed := c.argsAtCallers(f, 0); closed && any && onlyTW {
+					continue
+				}
+			}
 			allInstrs(f, func(_ *ssa.BasicBlock, _ int, in ssa.Instruction) {
 				call, ok := in.(*ssa.Call)
 				if !ok {
@@ -598,7 +615,13 @@ func ruleBytesAccounted(c *Ctx) {
 			}
 			c.check(len(bad) == 0, key, emit.Pos(), "the writer puts nothing between a recorded mapping and the text", fmt.Sprintf("the mapping is recorded by AddMapping, but %s writes bytes in front of the text afterwards (%s): the segment points at the inserted byte, one column before its lexeme", f.Name(), strings.Join(bad, ", ")))
 		case len(recCalls) != 1:
-			c.bad(key, emit.Pos(), "the text writer does not record the requested mapping exactly once before emitting (found %d recording calls): segments are lost or doubled", len(recCalls))
+			// the prologue may have been moved into helpers: fold it for the states in which the writer inserts a
+			// separator, the omitted ';' or nothing, and look where the mapping is recorded
+			if why := foldedRecordingOrder(c, f); why == "" {
+				c.ok(key, emit.Pos(), "by folding the prologue for the separator / omitted-semicolon / plain states: recorded exactly once, after every inserted byte and immediately before the text")
+			} else {
+				c.bad(key, emit.Pos(), "the text writer does not record the requested mapping exactly once directly before emitting (%d direct recording calls; folding the prologue: %s): segments are lost, doubled or point at an inserted byte", len(recCalls), why)
+			}
 		default:
 			r := recCalls[0]
 			var bad []string
@@ -1068,4 +1091,51 @@ func rulePostPassPositions(c *Ctx, t *tables) {
 			c.check(!has, "Program: first text of the output ["+m.name+"]", token.NoPos, "no constant text with leading blanks can be written first", "a constant text with leading blanks can be the first text of the output: the start trim removes bytes the mapper has counted")
 		}
 	}
+}
+
+// foldedRecordingOrder folds the prologue of text writer f (wfold.go) with a mapper attached and a mapping requested,
+// for the states in which the writer inserts a separating space, the omitted semicolon, or nothing. It returns "" when
+// in each of them the mapping is recorded exactly once, after all inserted bytes and before the text.
+func foldedRecordingOrder(c *Ctx, f *ssa.Function) string {
+	pretty := c.fieldByName("ast", "CodeWriter", "PrettyPrint")
+	semis := c.fieldByName("ast", "CodeWriter", "WriteSemicolons")
+	sg := c.semiGuard()
+	type sc struct {
+		name string
+		s    wScenario
+	}
+	mk := func(p, ws bool, extra map[*types.Var]constant.Value) map[*types.Var]constant.Value {
+		m := map[*types.Var]constant.Value{}
+		if pretty != nil {
+			m[pretty] = constant.MakeBool(p)
+		}
+		if semis != nil {
+			m[semis] = constant.MakeBool(ws)
+		}
+		for k, v := range extra {
+			m[k] = v
+		}
+		return m
+	}
+	scs := []sc{
+		{"same sign after a sign (separator)", wScenario{last: '-', next: '-', fields: mk(false, true, nil), mapping: true}},
+		{"plain text", wScenario{last: 'a', next: 'b', fields: mk(false, true, nil), mapping: true}},
+	}
+	if sg != nil && sg.flag != nil {
+		scs = append(scs, sc{"statement start after an omitted semicolon", wScenario{last: 'x', next: '(', fields: mk(true, false, map[*types.Var]constant.Value{sg.flag: constant.MakeBool(true)}), mapping: true}})
+	}
+	for _, x := range scs {
+		em, ok, why := c.foldWriterPrologue(f, x.s)
+		if !ok {
+			return "does not fold (" + why + ")"
+		}
+		recs := c.lastFoldRecords
+		switch {
+		case len(recs) != 1:
+			return fmt.Sprintf("%s: %d recordings", x.name, len(recs))
+		case recs[0] != len(em):
+			return fmt.Sprintf("%s: recorded after %d of the %d byte(s) the writer inserts in front of the text", x.name, recs[0], len(em))
+		}
+	}
+	return ""
 }
